@@ -120,8 +120,10 @@ class Runner:
         batch = []
         for case in cases:
             res = mod.run_impl(case)
-            if isinstance(res, dict) and res.get("status") == "timeout":
+            from harness.common import watchdog as _wd
+            if isinstance(res, dict) and res.get("status") == "timeout" and _wd.timeouts_seen() <= _wd.STRIKES:
                 # a time-out of the real code is a finding only if it is reproducible (DESIGN §7): run the case once more
+                # (only for the first few: once several calls have hung the limits are cut short, see watchdog.py)
                 res2 = mod.run_impl(case)
                 if not (isinstance(res2, dict) and res2.get("status") == "timeout"):
                     res = res2
